@@ -27,7 +27,9 @@ def bip_case(inp):
     H = build(net)
     before = proj_h(H)
     kw = dict(integer_ids=fl["integer_ids"], include_edge_id_attr=fl["edge_id_attr"], include_mol=fl["mol"],
-              include_stoich=True, include_role=True)
+              include_stoich=True, include_role=True,
+              # the abstract networks have no isolated species, so this flag must not change anything
+              include_isolated_species=bool(fl.get("isolated", True)))
     if fl.get("prefix") == "none" and not fl["integer_ids"]:
         kw.update(species_prefix=None, reaction_prefix=None)
     elif fl.get("prefix") == "custom":
@@ -134,8 +136,8 @@ def run(ctx: core.Ctx) -> None:
     nets += [crnlib.norm_net(n) for n in gen3]
     if q:
         nets = rng.sample(nets, min(len(nets), 5000))
-    flagsets = [{"integer_ids": a, "edge_id_attr": b, "mol": m, "prefix": p}
-                for a in (False, True) for b in (False, True) for m in (False, True) for p in ("default", "custom")]
+    flagsets = [{"integer_ids": a, "edge_id_attr": b, "mol": m, "prefix": p, "isolated": i}
+                for a in (False, True) for b in (False, True) for m in (False, True) for p in ("default", "custom") for i in (True, False)]
     bip = [{"net": with_mol(n, rng), "flags": rng.choice(flagsets)} for n in nets]
     core.run_stage(ctx, S("bipartite-exhaustive", bip_case, bip))
     core.run_stage(ctx, S("strings-exhaustive", str_case,
